@@ -181,7 +181,12 @@ def rule_parametric(ctx):
             if ce.get("path") in ("std::convert::From::from", "std::convert::Into::into") and ce.get("resolved") is None:
                 a = norm(b.resolve_operand(t["args"][0]))
                 iserr = a[0] == "agg" and a[1][0] == "adt" and a[1][1] == "parse::ParseError"
-                ctx.ob("PARAMETRIC", "generic conversion converts a ParseError constant", iserr, fn=k, site=b.site(bb), detail=nshow(a)[:100])
+                # or, by type: the source type of the conversion is ParseError (an error handed on from a callee:
+                # `Err(e) => return Err(T::Error::from(e))`)
+                targs = ce.get("args", [])
+                srcty = (targs[-1] if ce["path"].endswith("From::from") else targs[0]) if targs else None
+                iserr = iserr or srcty == "parse::ParseError"
+                ctx.ob("PARAMETRIC", "generic conversion converts a ParseError constant", iserr, fn=k, site=b.site(bb), detail="%s : %s" % (nshow(a)[:100], srcty))
 
 
 def rule_fst(ctx):
